@@ -1,8 +1,9 @@
 #!/usr/bin/env python3
 """Writes /verif/MANIFEST.json from the table below (kept next to the checks so the two cannot drift)."""
-import json
+import json, os
+V = os.path.dirname(os.path.dirname(os.path.abspath(__file__)))
 
-S_NOTE = ("A run that exhausts its step budget is reported as no-progress, a run that kills or stalls the worker inside the code under test as crash/hang (re-executed alone from its seed before it is believed). Trusted base: Go toolchain and race detector; simgen's rewrite rules (the repository's tests pass on the rewritten tree); "
+S_NOTE = ("Each run draws its schedule from one of four strategies (random walk, sticky random, partial-order sampling, PCT of depth 1-4); one seed is one exactly repeatable execution. A run that exhausts its step budget is reported as no-progress, a run that kills or stalls the worker inside the code under test as crash/hang (re-executed alone from its seed before it is believed). Trusted base: Go toolchain and race detector; simgen's rewrite rules (the repository's tests pass on the rewritten tree); "
           "the enabledness models of mutex/RWMutex/WaitGroup/channel/select/timer in verif/sim/rt (a wrong model fails towards exit 2 through the divergence guards, not towards a false VIOLATION); "
           "porcupine v1.3.0 where linearizability is checked; the reference models. Seeded sampling within stated bounds: evidence, not proof.")
 H_NOTE = ("Runs on the rewritten copy so that map iteration order is a replayable draw; otherwise single client, no faults: these properties have no schedule, clock or fault dimension; what is explored is the space of operation histories. "
@@ -23,7 +24,7 @@ claimed = {
               technique="deterministic simulation: seeded scheduler, sync.Pool fault stub, register linearizability (porcupine), ownership oracle, race detector in-sim"),
   "C19": dict(tier="S", text="Seeded search over the timing of peer, timer, context cancellation and close around one SendTimeout/SendContext/RecvTimeout/RecvContext call (virtual clock, stalls that let a deadline pass while tasks are runnable), and over capacity, fill level, open/closed state, limit and concurrent senders for RecvQueued/RecvQueuedFull; conservation of unique tokens (acknowledged-sent = received + buffered), legitimacy of every false result, FIFO and never-blocks for the queued receivers.", ref="3 (C19)",
               technique="deterministic simulation: seeded scheduler with virtual clock, timer/cancel/close fault injection, token-conservation oracle, race detector in-sim"),
-  "C10": dict(tier="S", text="Seeded search over schedules of publishers (all six variants, WithOnly), per-subscription receivers (well-behaved, slow, stopping, absent), and a control task subscribing and unsubscribing, with the virtual clock driving PubTimeoutAfter and stalls letting deadlines pass; at-most-once, exactly-once / delivery-or-timeout accounting, Sync order, Wait-returns-after-hand-off (no live sender task at return), error values, closing exactly the removed channels, and no panic in any task including library-spawned ones. Clones taken before their channel is removed, Sub racing UnsubAll, Unsub called from the OnPubTimeout callback, slices overwritten after return and liveness under a positive timeout (nobody stays blocked, no timeout reported early, callback never after a Wait/Sync return) are part of the workload and oracle. The send-on-closed-channel panic of the asynchronous variants and two later PubSub defects were found by this check and are fixed in /repo (41a08ec, 210ba83).", ref="3 (C10)",
+  "C10": dict(tier="S", text="Seeded search over schedules of publishers (all six variants, WithOnly), per-subscription receivers (well-behaved, slow, stopping, absent), and a control task subscribing and unsubscribing, with the virtual clock driving PubTimeoutAfter and stalls letting deadlines pass; at-most-once, exactly-once / delivery-or-timeout accounting, Sync order, Wait-returns-after-hand-off (no live sender task at return), error values, closing exactly the removed channels, and no panic in any task including library-spawned ones. Clones taken before their channel is removed, Sub racing UnsubAll, Unsub called from the OnPubTimeout callback, slices overwritten after return and liveness under a positive timeout (nobody stays blocked, no timeout reported early, callback never after a Wait/Sync return) are part of the workload and oracle. The send-on-closed-channel panic of the asynchronous variants and three later PubSub defects were found by this check and are fixed in /repo (41a08ec, 210ba83, 644d9c9). WithOnly is also applied to publishers made by WithOnly.", ref="3 (C10)",
               technique="deterministic simulation: seeded scheduler with virtual clock, receiver-stall/unsubscribe/close fault injection, conservation and ordering oracles over the recorded history"),
   "C01": dict(tier="H", text="Seeded search over operation histories (single client, no faults - the property has no schedule, clock or fault in it) of the AVL tree against a sorted-multiset reference model stepped call by call on every live tree and clone, with cross-invariants (Len, Contains over the universe, the three traversals being one binary tree, Walk = Slice, String) after every call and minimised replay files. Found and now guards three defects (fixed).", ref="4 (C01), 2.11",
               technique="seeded operation-history search against an executable reference model in the simulator's fault-free single-client configuration (no interleaving or fault dimension exists)"),
@@ -47,7 +48,7 @@ not_applicable = {
 pending = {}
 
 def main():
-    props = [json.loads(l) for l in open('/verif/properties.jsonl')]
+    props = [json.loads(l) for l in open(V + '/properties.jsonl')]
     checks = []
     for p in props:
         pid = p['id']
@@ -86,7 +87,7 @@ def main():
         "not_applicable": na,
         "notes": "Exit 0 held / 1 VIOLATION / 2 the check could not do its job. VERIF_SEED and VERIF_TIER honoured. Known findings: /verif/known_findings.json (no open entries; every entry is a fixed one with its /repo commit and the replay kept under /verif/corpus). Independently seeded breaking changes and what catches them: /verif/seeded/ and DESIGN.md 11.6; tools/seeded_regress.py re-runs them all. ./check selftest proves same-seed determinism across processes, GOMAXPROCS and plain/-race builds.",
     }
-    json.dump(m, open('/verif/MANIFEST.json', 'w'), indent=1)
+    json.dump(m, open(V + '/MANIFEST.json', 'w'), indent=1)
     print("claimed:", sorted(claimed), "n/a:", [x["property_id"] for x in na])
 
 main()
